@@ -316,3 +316,56 @@ Proof.
     rewrite app_length, repeat_length in H. cbn in H. lia. }
   subst n. unfold caret_under, w_cur in Hc. cbn in Hc. discriminate.
 Qed.
+
+(* --- the context line and U+2028 / U+2029 ---------------------------------------------------------------- *)
+Lemma line_rest5_eq l : existsb (fun c => (snd c =? 8232) || (snd c =? 8233)) (line_rest l) = false ->
+  line_rest l = line_rest5 l.
+Proof.
+  induction l as [|c t IH]; [reflexivity|]. cbn [line_rest line_rest5]. unfold brkc, is_break.
+  destruct (snd c =? 10) eqn:E10; [reflexivity|]. destruct (snd c =? 13) eqn:E13; [reflexivity|].
+  cbn [orb existsb]. intros H. apply orb_false_iff in H. destruct H as [H1 H2]. rewrite H1. f_equal. exact (IH H2).
+Qed.
+
+Section WholeLine.
+  Variable graphic : Z -> bool.
+
+  (* when no U+2028/U+2029 follows the offset on its line (up to the next \n or \r), a line of at most 60
+     characters is printed exactly: "%5d: " and the displayed code points of the whole line *)
+  Theorem context_whole_line_proof cps off pre cur post line col ctx :
+    Forall cp_ok cps -> located cps off pre cur post ->
+    position graphic (bytes cps) off = Done (line, col, ctx) ->
+    existsb (fun c => (snd c =? 8232) || (snd c =? 8233)) (line_rest (cur ++ post)) = false ->
+    len (whole_line pre cur post) <= 60 ->
+    exists n, ctx = pad_left 5 (fmt_d line) ++ [58; 32] ++ map (disp graphic) (whole_line pre cur post)
+                      ++ [10] ++ repeat 32 n ++ [94].
+  Proof.
+    intros Hok Hloc E Hno Hshort.
+    destruct (context_window_proof graphic cps off pre cur post line col ctx Hok Hloc E)
+      as (front & rear & lo & hi & n & Ectx & _ & _ & _ & Hf & Hr & _ & Hfull).
+    cbv zeta in *. unfold whole_line in *. rewrite <- (line_rest5_eq _ Hno) in *.
+    fold (shown_line pre cur post) in *.
+    destruct (Hfull Hshort) as (-> & ->).
+    assert (front = false) by (destruct front; [destruct Hf as [Hf _]; specialize (Hf eq_refl); lia|reflexivity]).
+    assert (rear = false) by (destruct rear; [destruct Hr as [Hr _]; specialize (Hr eq_refl); lia|reflexivity]).
+    subst front rear. exists n. rewrite Ectx. cbn [ellipsis app]. rewrite slice_full. reflexivity.
+  Qed.
+End WholeLine.
+
+(* "a", U+2028, "b", offset 0: Position counts two lines, the context of line 1 shows "a·b" *)
+Definition ls_cps : list cp := [([97], 97); ([226; 128; 168], 8232); ([98], 98)].
+
+Theorem context_whole_line_refuted_proof :
+  exists graphic cps off pre cur post line col ctx,
+    Forall cp_ok cps /\ located cps off pre cur post /\
+    position graphic (bytes cps) off = Done (line, col, ctx) /\
+    len (whole_line pre cur post) <= 60 /\
+    forall n, ctx <> pad_left 5 (fmt_d line) ++ [58; 32] ++ map (disp graphic) (whole_line pre cur post)
+                       ++ [10] ++ repeat 32 n ++ [94].
+Proof.
+  exists ascii_graphic, ls_cps, 0, [], [([97], 97)], [([226; 128; 168], 8232); ([98], 98)], 1, 1,
+    [32; 32; 32; 32; 49; 58; 32; 97; 183; 98; 10; 32; 32; 32; 32; 32; 32; 32; 94].
+  split; [repeat constructor|]. split.
+  { split; [reflexivity|]. cbn. split; [lia|]. split; intros [H _]; discriminate. }
+  split; [vm_compute; reflexivity|]. split; [vm_compute; discriminate|].
+  intros n E. vm_compute in E. discriminate.
+Qed.
